@@ -10,10 +10,10 @@ PY = '/venv/bin/python'
 CLAIMED = {
 	# id: (category, technique, text, note, design_ref)
 	'C01': ('other', 'operator-precedence order compatibility over grammar ladder x Jinja output shapes x frozen C++ table; template/helper/i18n existence joins; anchoring lint',
-		'Decides six structural necessary conditions of C01 exhaustively over finite tables: every (parent, un-parenthesised child) operator pair the grammar allows is checked against the C++ operators Py2Cpp emits (handler code + Jinja ASTs), every render call site resolves to an existing parseable template, every helper/filter/i18n key a template uses exists, handler parameters equal node properties, scope containment is element-anchored, the dunder->operator table agrees with CPython dispatch. Does not decide run-time equivalence or C++20 acceptance.',
+		'Decides six structural necessary conditions of C01 exhaustively over finite tables: every (parent, un-parenthesised child) operator pair the grammar allows is checked against the C++ operators Py2Cpp emits (handler code + Jinja ASTs), every render call site resolves to an existing parseable template, every helper/filter/i18n key a template uses exists, handler parameters equal node properties, scope containment is element-anchored, the dunder->operator table agrees with CPython dispatch; templates of primary expressions render closed C++ text, operator chains are rendered per operator and front to back, comparison chains are not left-folded, argument labels are honoured (F20-F22 known). Does not decide run-time equivalence or C++20 acceptance.',
 		'trusts the frozen ISO C++ precedence table, lark/jinja2/PyYAML as data-file parsers; grammar ladder ~ CPython is C02', 'DESIGN.md §4 C01'),
 	'C02': ('other', 'operator-ladder order isomorphism against CPython precedence tables; abstract evaluation of child selectors over lark-compiled tree shapes; dispatch-table shadowing analysis',
-		'Decides exhaustively over finite tables: the grammar ladder is order-isomorphic to ast._Precedence for all ~25 common tokens; each of ~300 child selectors in the node classes addresses a child the grammar can produce at that position for every mapped tag, with satisfiable class assertions; no unconditional class shadows later candidates of its tag; constant indexing into repeated slots is reported (F7 known finding). Tree equality with ast.parse over all programs is not decided.',
+		'Decides exhaustively over finite tables: the grammar ladder is order-isomorphic to ast._Precedence for all ~25 common tokens; each of ~300 child selectors in the node classes addresses a child the grammar can produce at that position for every mapped tag, with satisfiable class assertions; no unconditional class shadows later candidates of its tag; constant indexing into repeated slots is reported (F7 known finding); path-pattern matchers discriminate the entry tag where the grammar mixes declarations and expressions, and never locate a self-nesting tag by first occurrence. Tree equality with ast.parse over all programs is not decided.',
 		'tree shapes from lark compiled rules; LALR automaton and indenter not modelled', 'DESIGN.md §4 C02'),
 	'C03': ('other', 'stub-signature vs CPython result-type table, token->dunder table via probe object, literal-handler table, anchoring lint on index paths',
 		'Decides four narrow necessary conditions: stub operator/conversion signatures equal the types CPython computes on constants for every admitted operand type; the operator token->dunder table equals CPython dispatch; literal handlers name the right standard type; index-path containment tests are "."-anchored; operators typed without an operand check yield the result type of CPython for every scalar operand (F11/F12 known); a flattened operator chain is typed with the operator of each step. Scope lookup / template substitution over run-time data is not decided.',
@@ -22,13 +22,13 @@ CLAIMED = {
 		'Decides: every per-module store written on the load path is deleted on the unload path and Modules.unload reaches every owner; no set construction, id/hash or unsorted listing outside a reviewed allow-list on the pipeline; process-global mutation is limited to the reviewed (import-time / pure-cache) sites; the transpiler dependency stack is balanced; every function that writes reflection attrs in place is only handed `.to_temporary()` copies (shared SymbolDB symbols are never rewritten). Equality of outputs across histories and hash seeds is not decided.',
 		'insertion-ordered dicts; per-module objects live in the per-module DI container', 'DESIGN.md §4 C04'),
 	'C05': ('other', 'guard-dominance walk over the closed cache region + who-may-touch + cache-identity coverage',
-		'Decides the clause "with caching disabled no cache file is read or written": every call-graph path from a public cache entry to a file-system effect passes the enabled side of a CacheSetting.enabled test; only the cache region touches the cache directory; every cache identity covers the settings/files its factory reads. warm==cold over edit histories is not decided.',
+		'Decides the clause "with caching disabled no cache file is read or written": every call-graph path from a public cache entry to a file-system effect passes the enabled side of a CacheSetting.enabled test; only the cache region touches the cache directory; every cache identity covers the settings/files its factory reads, losslessly, and the symbol-cache identity covers the transitive import closure (F16 known). warm==cold over all edit histories is not decided.',
 		'effects are recognised by callee name inside the region; callee resolution is annotation/MRO based', 'DESIGN.md §4 C05'),
 	'C07': ('other', 'try-enclosure and exception-ladder checks, abstract-hole MRO resolution, stated-belief contradiction lint, explicit-raise inventory',
 		'Decides the shape clauses of "only Errors.Error escapes": third-party parser boundary on both branches, Procedure handler ladder and assert enclosure, no un-overridden NotImplementedError member on dispatchable classes, no index()==-1 belief, every explicit raise on the pipeline is an Errors.* class (frozen exceptions with reasons), interactive loop/top-level catches. Implicit exceptions and termination are not decided.',
 		'explicit raise sites and boundaries only; implicit KeyError/IndexError are out of static reach', 'DESIGN.md §4 C07'),
 	'C08': ('other', 'intraprocedural taint lint: separator anchoring of prefix/suffix/substring/length tests on identifier-carrying strings, frozen triage',
-		'Decides that no decision in the scanned pipeline files depends on a prefix/suffix/substring/length relation of user-chosen identifiers (the mechanism the property names). Every tainted sink is anchored on a separator, compares whole elements, or is listed with a reason. The metamorphic relation itself is not decided.',
+		'Decides that no decision in the scanned pipeline files depends on a prefix/suffix/substring/length relation of user-chosen identifiers (the mechanism the property names). Every tainted sink is anchored on a separator, compares whole elements, or is listed with a reason; the same for name substitutions, prefix tests and substring queries inside the Jinja templates (F19 known); the spelling-defined visibility table (to_accessor) is evaluated on sample spellings against Python's convention. The metamorphic relation itself is not decided.',
 		'taint is intraprocedural with attribute/parameter sources; grammar-tag paths are not name-carrying', 'DESIGN.md §4 C08'),
 	'C09': ('other', 'abstract interpretation list/single over property bodies vs run-time-visible annotation; handler-signature join with Node.prop_keys recomputed statically; Procedure shape obligations; grammar-production emptiness',
 		'Decides the contract between the value-driven flattening and the annotation-driven popping for all 102 expandable properties and 183 handlers of the three Procedure clients, exhaustively; plus metadata-key unambiguity, one-result-per-node shape of Procedure, and that the raw-descendant fallback cannot fire for classes with properties.',
@@ -43,16 +43,16 @@ CLAIMED = {
 		'Decides the schema clauses of the symbol-table export/import: keys written == keys read == TypedDict keys per record shape, discriminators agree, every restored constructor field is fed from the key of the same name, path fields use the same codec pair, attr paths use the same separator, integer indices and are written totally; the export order is a post-order walk that also visits the declaration behind every referenced type key. Symbol-by-symbol equality and idempotence over all tables are not decided.',
 		'CPython ast only', 'DESIGN.md §4 C14'),
 	'C15': ('other', 'field symmetry of dumps/loads branches and coverage of every attribute the EntryOfLark view reads by what loads restores',
-		'Decides that nothing the node layer can observe of a lark tree is lost by the cache encoding: per-branch key symmetry, discriminator agreement, source_map order, every Tree/Token/Meta attribute read by the view is restored, no other module reads the raw lark object, JSON codec and cache format agree. Field-by-field equality over all trees is not decided.',
+		'Decides that nothing the node layer can observe of a lark tree is lost by the cache encoding: per-branch key symmetry, discriminator agreement, source_map order, every Tree/Token/Meta attribute read by the view is restored from the value of the same field (position provenance), restored children are re-iterable lists, no other module reads the raw lark object, JSON codec and cache format agree. Field-by-field equality over all trees is not decided.',
 		'lark constructor signatures read with inspect', 'DESIGN.md §4 C15'),
 	'C17': ('other', 'finite dispatch analysis: branch operator vs CPython-parsed operator class, routing partition, exhaustiveness against the grammar operator ladder',
 		'Decides exhaustively over the finite (node class, token) table that a folded value can only come from a branch applying the operator CPython applies for that token, that int/int true division is never truncated, that every other combination is refused, that no grammar-admitted token falls into a default arm that changes its meaning, that a same-level chain is folded front to back with the operator of each step, and that the evaluator keeps no memo across expressions. Numeric corner cases through float() are not decided.',
 		'the evaluator computes with Python operators, so the right operator gives the right value', 'DESIGN.md §4 C17'),
 	'C19': ('other', 'store analysis of the container classes: fresh-copy/alias classification in clone/combine, add/delete store pairing along bind/unbind paths (following super), raise-type inventory',
-		'Decides the structural clauses of the container model: clones and combinations own their storage and do not mutate operands, the right operand wins, stores written by bind/resolve are exactly those deleted by unbind, rebind is unbind-then-bind, the public API raises ValueError (TypeError in combine), invoke curries the maximal resolvable prefix. Observational equivalence with a reference model is not decided.',
+		'Decides the structural clauses of the container model: clones and combinations own their storage and do not mutate operands, the right operand wins, stores written by bind/resolve are exactly those deleted by unbind, rebind is unbind-then-bind, the public API raises ValueError (TypeError in combine) also for surplus invoke arguments, invoke curries the maximal resolvable prefix, store keys are normalised symbols, a clone carries bindings only (F24 known: left instances survive a right re-binding). Observational equivalence with a reference model is not decided.',
 		'stores = dict attributes initialised in __init__', 'DESIGN.md §4 C19'),
 	'C10': ('other', 'writer/reader codec agreement for path elements, tag-alphabet check over the compiled grammar, closure scan of match_feature for upward navigation and side effects',
-		'Decides: path elements are written and parsed with the same tag / tag[index] codec, the index is positional and written exactly when the tag repeats, grammar tags cannot collide with the codec metacharacters; all 30 match_feature definitions and the 44 functions they reach are downward-only and pure; the resolver caches by path only. pluck(T,p) is e over all trees is not decided.',
+		'Decides: path elements are written and parsed with the same tag / tag[index] codec, the index is positional and written exactly when the tag repeats, grammar tags cannot collide with the codec metacharacters; all 30 match_feature definitions and the 44 functions they reach are downward-only and pure; the resolver caches accepted instances by path only and takes the first accepting class; memo keys are distinct and complete; structural queries stay on the entry tree. pluck(T,p) is e over all trees is not decided.',
 		'upward navigation recognised by member name', 'DESIGN.md §4 C10'),
 	'C11': ('other', 'operator-ladder extraction from the meta-grammar text (independent reader) vs CPython precedence; dominance of the full-consumption test; artifact sync',
 		'Decides the ladder order isomorphism for all operator tokens of py_gram.lark (violated by the walrus level: known findings F9/F9b), that parse returns only after consuming every token, and that py_rules.py is the compiled form of py_gram.lark. Ordered-choice hazards and tree equality over generated sentences are not decided.',
